@@ -818,15 +818,25 @@ class Model(Object):
                 forward = reaction.forward_variable
                 reverse = reaction.reverse_variable
 
-                obj_coef = reaction.objective_coefficient
-                if obj_coef != 0:
+                # The coefficients of the two variables in the objective (they
+                # need not be opposite: a minimal total flux objective, or an
+                # objective on one direction only).
+                objective = self.solver.objective
+                if objective.is_Linear:
+                    coefficients = objective.get_linear_coefficients(
+                        [forward, reverse]
+                    )
+                else:
+                    obj_coef = reaction.objective_coefficient
+                    coefficients = {forward: obj_coef, reverse: -obj_coef}
+                if coefficients[forward] != 0 or coefficients[reverse] != 0:
                     if context:
                         # Look the objective up when undoing: it may have been
                         # replaced by another objective object in between.
                         context(
                             partial(
                                 self._set_objective_coefficients,
-                                {forward: obj_coef, reverse: -obj_coef},
+                                dict(coefficients),
                             )
                         )
                     # Drop the reaction from the objective explicitly: the
